@@ -17,8 +17,14 @@ use vcommon::{Args, Report};
 
 fn counters(thorough: bool) -> Vec<u64> {
     let mut v: Vec<u64> = vec![0, 1, (1 << 32) - 2, (1 << 32) - 1, 1 << 32, (1 << 32) + 1, (1 << 33) - 1, 1 << 33, 1 << 53, (1 << 54) - 1, (1u64 << 63) - 1, 1 << 63, u64::MAX - 1, u64::MAX];
+    // every lane of a 16-wide batch must see the 2^32 carry fall right after it
+    for d in 1..=17u64 {
+        v.push((1u64 << 32) - d);
+        v.push((1u64 << 31) - d); // a carry detector that looks at the sign bit would trip here
+    }
+    v.push(1u64 << 31);
     if thorough {
-        for d in -20i64..=20 {
+        for d in -40i64..=40 {
             v.push(((1i128 << 32) + d as i128) as u64);
         }
         for e in 0..40u64 {
